@@ -149,6 +149,17 @@ func c15StdName(l int) string {
 	return map[int]string{-4: "debug", 0: "info", 4: "warning", 8: "error"}[l]
 }
 
+// c15LazyUser reports through another (native) logger while it is being printed.
+type c15LazyUser struct {
+	id    int
+	audit slog.Logger
+}
+
+func (u c15LazyUser) String() string {
+	u.audit.Info("user loaded on demand", "uid", u.id, "source", "db", "cached", false, "shard", 3)
+	return "alice"
+}
+
 func runC15(r *run) {
 	g := &rng{s: r.seed*472882027 + 15}
 	r.rule = "log/slog records (all level values, every value kind, nested groups, LogValuer chains, LogValuers inside groups) through handlers of all option combinations, directly (explicit time) and through log/slog.Logger; Enabled over all (logger level, debug mode, log/slog level); std-log messages of every newline shape through bridges of all (logger level, bridge severity) pairs; Entry.Log over log/slog levels -30..40; distinct = distinct (path, options, level, value kinds present / message shape); non-trivial = records with a group or LogValuer, messages ending in a newline"
@@ -475,6 +486,31 @@ func runC15(r *run) {
 					}
 				}
 			}
+		}
+	}
+
+	// ---- a handled record one of whose values logs through a native logger while it is being rendered (an entity loaded
+	// on demand that reports the cache miss): the handled record still carries exactly its own attributes
+	slog.VerifResetGlobals()
+	for round := 0; round < 12; round++ {
+		out, auditOut := &recorder{}, &recorder{}
+		audit := slog.New("c15audit").SetWriter(auditOut).SetErrorWriter(auditOut).SetJSONMode(true).SetLevel(slog.InfoLevel)
+		l := slog.New("c15lazy").SetWriter(out).SetErrorWriter(out)
+		lg := logslog.New(slog.NewSlogHandler(l, &slog.HandlerOptions{NoColor: true, NoSource: true, JSON: true, Level: slog.InfoLevel}))
+		lg.Info("request served", "actor", c15LazyUser{id: round, audit: audit}, "bytes", 512+round, "path", "/index.html", "status", 200)
+		w := out.take()
+		r.seen(fmt.Sprintf("reentrant|%d", round%3))
+		var m map[string]any
+		if len(w) != 1 || json.Unmarshal(w[0], &m) != nil {
+			r.violate(violation{What: "a handled record with a value that logs while it is rendered was not delivered as one JSON record", Input: map[string]any{"round": round}, Actual: fmt.Sprintf("%q", w)})
+			continue
+		}
+		delete(m, "time")
+		got, _ := json.Marshal(m)
+		want := fmt.Sprintf(`{"actor":"alice","bytes":%d,"level":"info","logger":"c15lazy","msg":"request served","path":"/index.html","status":200}`, 512+round)
+		if string(got) != want {
+			r.violate(violation{What: "a record handled through the adapter does not carry exactly its own attributes (another record was formatted while it was being written)",
+				Input: map[string]any{"round": round, "call": `Info("request served", "actor", <value whose String() logs natively>, "bytes", n, "path", "/index.html", "status", 200)`}, Expected: want, Actual: string(got)})
 		}
 	}
 
